@@ -73,7 +73,13 @@ def arg_value(pa: Node) -> Any:
     if isinstance(c, Node) and c.rule == "integer_like":
         return il(c)
     if isinstance(c, Node) and c.rule == "string":
+        ls = c.sub("lang_string")
+        if ls is not None:
+            return ("lang", [(a.tok("IDENTIFIER").text, a.sub("string_value").first_token()) for a in ls.subs("lang_string_argument")])  # type: ignore[union-attr]
         return c.first_token()
+    if isinstance(c, Node) and c.rule == "position_marker":
+        args = c.subs("position_marker_arg")
+        return ("pos", c.tok("STRING_LITERAL"), args[0].first_token(), args[1].first_token())
     if isinstance(c, Node):
         return c.first_token()
     return c
@@ -222,3 +228,38 @@ def simple_stmt(node: Node, perf: str) -> list[tuple[str, list[Any]]]:
     if c.rule == "call":
         return [("Call", [("label", c.tok("IDENTIFIER").text)])]  # type: ignore[union-attr]
     raise Rejected(c.rule)
+
+
+def multiline_value(text: str) -> str:
+    """Value of a multi-line string literal per the specification's indentation rules."""
+    body = text[3:-3]
+    lines = body.split("\n")
+    if len(lines) == 1:
+        return lines[0]
+    first, middle, last = lines[0], lines[1:-1], lines[-1]
+    dedent_set = list(middle)
+    last_blank = last.strip(" ") == ""
+    if not last_blank:
+        dedent_set.append(last)
+    ind = min((len(ln) - len(ln.lstrip(" ")) for ln in dedent_set), default=0)
+    out = [first] + [ln[ind:] if len(ln) - len(ln.lstrip(" ")) >= ind else ln.lstrip(" ") for ln in dedent_set]
+    if last_blank:
+        out.append("")
+    if out and out[0] == "":
+        out = out[1:]
+    if out and out[-1] == "":
+        out = out[:-1]
+    return "\n".join(out)
+
+
+def position_arg(text: str) -> tuple[int, int]:
+    """(tile, offset) of a position mark coordinate: `.5` puts the mark between two tiles (offset 2)."""
+    if "." not in text:
+        return int(text, 0), 0
+    whole, _, fr = text.partition(".")
+    fr = fr.rstrip("0")
+    if fr == "":
+        return int(whole or "0"), 0
+    if fr == "5":
+        return int(whole or "0"), 2
+    raise Rejected("position fraction other than .5")
